@@ -31,7 +31,7 @@ def parse_search(out):
     m = re.search(r"=\s*(\[.*\])\s*:\s*list \(list \(var \* \(Z \* positive\)\)\)", out, re.S)
     if not m:
         return None
-    txt = m.group(1).replace("%Z", "").replace("%positive", "").replace("%string", "")
+    txt = re.sub(r"\((-\d+)\)", r"\1", m.group(1).replace("%Z", "").replace("%positive", "").replace("%string", ""))
     rows, depth, cur = [], 0, None
     for tok in re.finditer(r'\[|\]|\(\s*"([^"]*)"\s*,\s*\(\s*(-?\d+)\s*,\s*(\d+)\s*\)\s*\)', txt):
         t = tok.group(0)
